@@ -173,9 +173,12 @@ def build(reg, src):
             return VBool(len(calls) == 0)
         return VBool(len(calls) <= 1)
 
+    def wrapper_unchanged(s, *a):
+        # a call never rewrites the wrapper: the name resolved at construction stays (the NEXT call re-resolves it too)
+        return And(*[same(s.st.field(s.self, k), s.old.field(s.self, k)) for k in ('_sym', 'fn', 'klong')])
     wcases = [(f"args{n}{'-bound' if hs else '-unbound'}", wrap_setup(n, hs)) for n in range(4) for hs in (True, False)]
     reg.fn(T + 'KGFnWrapper.__call__', cases=wcases, requires=[lambda s: cm.ctx_inv(s.st, s.st.field(s.st.field(s.self, 'klong'), '_context'))],
-           returns='opaque', ensures=[wrap_post], ensures_exc=[wrap_exc])
+           returns='opaque', ensures=[wrap_post, wrapper_unchanged], ensures_exc=[wrap_exc, wrapper_unchanged])
 
     # ---------------- KGFnWrapper.__init__: the name is resolved WHEN THE WRAPPER IS MADE (the given one, else the one the function is
     # bound to at that moment) and stored; a later rebinding of the name is what __call__ then follows
